@@ -1106,6 +1106,67 @@ pub fn late_push_programs() -> Vec<Program> {
     out
 }
 
+/// C06 / C10: every well-nested sequence of at most `max_len` local operations (enter a local span,
+/// leave it, attach a property, attach an event) inside one local-parent scope: where an
+/// attachment lands depends only on which local span is open at that moment, whatever was
+/// recorded or closed just before.
+pub fn local_sequence_programs(max_len: usize) -> Vec<Program> {
+    let mut out = Vec::new();
+    // 0 = enter, 1 = leave, 2 = property, 3 = event
+    let mut seqs: Vec<Vec<u8>> = vec![vec![]];
+    let mut frontier: Vec<(Vec<u8>, usize)> = vec![(vec![], 0)];
+    for _ in 0..max_len {
+        let mut next = Vec::new();
+        for (s, depth) in &frontier {
+            for sym in 0..4u8 {
+                if sym == 1 && *depth == 0 {
+                    continue;
+                }
+                let mut t = s.clone();
+                t.push(sym);
+                let d = match sym {
+                    0 => depth + 1,
+                    1 => depth - 1,
+                    _ => *depth,
+                };
+                next.push((t, d));
+            }
+        }
+        seqs.extend(next.iter().map(|(s, _)| s.clone()));
+        frontier = next;
+    }
+    for (idx, seq) in seqs.iter().enumerate() {
+        // only sequences with at least two attachments and one leave in between are of interest
+        let attaches = seq.iter().filter(|s| **s >= 2).count();
+        if attaches < 2 || !seq.contains(&1) {
+            continue;
+        }
+        let mut ops = vec![root(0, "r", 0x6C), scope(0)];
+        let mut depth = 0;
+        for (i, sym) in seq.iter().enumerate() {
+            match sym {
+                0 => {
+                    ops.push(lenter(&format!("l{i}")));
+                    depth += 1;
+                }
+                1 => {
+                    ops.push(pop());
+                    depth -= 1;
+                }
+                2 => ops.push(lprop(&format!("k{i}"), &format!("v{i}"))),
+                _ => ops.push(levent(&format!("e{i}"))),
+            }
+        }
+        for _ in 0..depth {
+            ops.push(pop());
+        }
+        ops.push(pop());
+        ops.push(finish(0));
+        out.push(Program::new(format!("C06-local-seq#{idx}")).worker("A", ops).collector(1, true, 0));
+    }
+    out
+}
+
 /// C06: attachments (by handle, through the local parent, at creation) to spans with parents in
 /// different traces, and to spans below them.
 pub fn multi_parent_attach_programs() -> Vec<Program> {
